@@ -87,11 +87,15 @@ _SESS = {}
 def sess(kind='eval'):
     """Shared whole-stack session (soft float errors), renewed every 1500 uses."""
     ent = _SESS.get(kind)
+    if ent is not None and ent[2] != os.getpid():
+        # inherited through fork() (made by the parent while running the regression cases):
+        # sibling workers hold the same object and scratch directory; leave it alone
+        ent = None
     if ent is None or ent[1] > 1500:
         if ent is not None:
             ent[0].close()
         s = harness.Sess()
-        ent = _SESS[kind] = [s, 0]
+        ent = _SESS[kind] = [s, 0, os.getpid()]
     ent[1] += 1
     return ent[0]
 
@@ -656,6 +660,7 @@ def gen_related(rng):
 # ---------------------------------------------------------------------------------------------
 # progress watchdog for bulk loops (a stalled operation is inconclusive, never a violation)
 
+import os
 import signal as _signal
 
 
